@@ -1218,11 +1218,20 @@ func (a *fnAnalysis) block(b *ssa.BasicBlock, st *rstate) {
 						}
 					}
 				}
+				// an integer read out of a map the function writes itself: one of the values it put there, or zero
+				if mm, ok := x.X.(*ssa.MakeMap); ok && !x.CommaOk {
+					v = a.localMapValues(st, mm)
+				}
 				st.iv[x] = v
 			}
 		case *ssa.Extract:
 			if isIntType(x.Type()) {
 				st.iv[x] = a.extract(st, x)
+				if lk, ok := x.Tuple.(*ssa.Lookup); ok && lk.CommaOk && x.Index == 0 {
+					if mm, ok := lk.X.(*ssa.MakeMap); ok {
+						st.iv[x] = a.localMapValues(st, mm)
+					}
+				}
 			}
 		case *ssa.Store:
 			a.store(st, x)
@@ -2571,4 +2580,30 @@ func (a *fnAnalysis) capturedRange(fv *ssa.FreeVar) aval {
 		}
 	}
 	return topVal()
+}
+
+
+// localMapValues: the join of the integer values stored into a local map, and zero (the value of a missing key).
+func (a *fnAnalysis) localMapValues(st *rstate, mm *ssa.MakeMap) aval {
+	v := constVal(0)
+	if mm.Referrers() == nil {
+		return topVal()
+	}
+	for _, ref := range *mm.Referrers() {
+		switch y := ref.(type) {
+		case *ssa.MapUpdate:
+			if !isIntType(y.Value.Type()) {
+				return topVal()
+			}
+			r := a.get(st, y.Value)
+			if r.bot {
+				return topVal()
+			}
+			v = joinVal(v, r)
+		case *ssa.Lookup, *ssa.DebugRef:
+		default:
+			return topVal()
+		}
+	}
+	return v
 }
